@@ -187,6 +187,15 @@ def property_map(mod, cls):
     """{property name -> underlying field} for `@property def x(self): return self._y`;
     includes dataclass fields themselves (identity)."""
     out = {}
+    # inherited properties first (reverse MRO approximation: later bases first, own class last)
+    for b in reversed(cls.bases):
+        bname = b.id if isinstance(b, ast.Name) else (b.value.id if isinstance(b, ast.Subscript) and isinstance(b.value, ast.Name) else None)
+        if bname:
+            try:
+                bm, bc = find_class(mod, bname)
+                out.update(property_map(bm, bc))
+            except TranslatorGap:
+                pass
     for node in cls.body:
         if isinstance(node, ast.AnnAssign) and isinstance(node.target, ast.Name):
             out[node.target.id] = node.target.id
@@ -230,11 +239,14 @@ def property_map(mod, cls):
 def dataclass_fields(mod, cls):
     """ordered list of (field name, default ast or None), base classes first"""
     fields = []
-    for b in cls.bases:
+    # dataclasses collect fields in reverse MRO order: for `class C(A, B)` that is B's, then A's, then C's
+    for b in reversed(cls.bases):
         if isinstance(b, ast.Name):
             try:
                 bm, bc = find_class(mod, b.id)
-                fields += dataclass_fields(bm, bc)
+                for f in dataclass_fields(bm, bc):
+                    fields = [x for x in fields if x[0] != f[0]]
+                    fields.append(f)
             except TranslatorGap:
                 pass
     for node in cls.body:
